@@ -1,7 +1,9 @@
 """C01b / C01g: differential test of the sub-grammars `Deep2Doc` and `BrDoc` (Spec/DocFlat2.lean) against the real
 converter: model (`Pipeline.convert`) = specification (`spec`) = `markdown.Markdown().convert`, on every spelling tried.
 
-python corr/brdoc.py <mode> <n documents> <seed>        (3 spellings per document; mode = deep2 | br)
+`run(driver, rng, n)` is the entry point of the correspondence framework (mode of every document drawn from `rng`).
+
+python corr/brdoc.py <mode> <n documents> <seed>        (3 spellings per document; mode = deep2 | br | all)
   deep2  flat documents of rules, indented code blocks without `<`, paragraphs / ATX / Setext headings of words,
          escapes, code spans without `<` and emphasis / strong to two levels (no escaped backslash directly before a
          code span)                                                                    -- `C01_em_nested`
@@ -79,38 +81,74 @@ def has_nested(doc):
     return any(b[0] in 'pas' and f(b[-1], 0) for b in doc)
 
 
-def run(mode, n, seed):
+MODES = ('deep2', 'br')
+SPELLINGS = 3
+MAX_DIS = 50
+
+
+def run(driver, rng, n, mode=None, full=False):
+    """correspondence entry point (`framework.pmap('corr.brdoc', 'run', seed, n, shards)`): `n` generated documents
+    (`mode` None: deep2 / br drawn from `rng` per document), each accepted one printed under 3 spellings drawn from `rng`;
+    on every printed source  model (`convert`) = specification (`doc.spec`) = `markdown.Markdown().convert`.
+    `distinct` = distinct printed sources.  A generated document that `doc.wf` rejects is counted in
+    dist['rejected_by_wf'] and skipped (the generator filters `doc.Gen`, `WF` is the judge)."""
     import markdown
-    rng = random.Random(seed)
     g = D.Gen(rng, 4)
-    d = proto.Driver()
-    md = markdown.Markdown()
-    res = dict(mode=mode, documents=0, cases=0, differences=0, rejected=0, with_br=0, with_nesting=0, lines_max=0)
-    dis = []
+    docs, modes = [], []
     for _ in range(n):
-        doc = gen_doc(rng, g, mode)
-        e = D.enc_doc(doc)
-        if d.ask('doc.wf', e) != '1':
-            res['rejected'] += 1
-            continue
-        res['documents'] += 1
-        res['with_br'] += has_br(doc)
-        res['with_nesting'] += has_nested(doc)
+        m = mode or rng.choice(MODES)
+        docs.append(gen_doc(rng, g, m)); modes.append(m)
+    encs = [D.enc_doc(d) for d in docs]
+    wf = driver.ask_many([('doc.wf', e) for e in encs]) if docs else []
+    keep = [(d, e, m) for d, e, m, w in zip(docs, encs, modes, wf) if w == '1']
+    res = dict(mode=mode or 'mixed', documents=len(keep), cases=0, differences=0, rejected=len(docs) - len(keep), with_br=0,
+               with_nesting=0, lines_max=0)
+    dist = {'documents': len(keep), 'rejected_by_wf': len(docs) - len(keep), 'with_br': 0, 'with_nesting': 0}
+    for doc, _, m in keep:
+        dist['mode:' + m] = dist.get('mode:' + m, 0) + 1
+        dist['with_br'] += has_br(doc)
+        dist['with_nesting'] += has_nested(doc)
         for b in doc:
-            if b[0] == 'p': res['lines_max'] = max(res['lines_max'], 1 + sum(x[0] == 'B' for x in b[1]))
-        spec = dec_str(d.ask('doc.spec', e))
-        for _ in range(3):
+            if b[0] == 'p':
+                k = 1 + sum(x[0] == 'B' for x in b[1])
+                res['lines_max'] = max(res['lines_max'], k)
+                dist['para_lines:%d' % k] = dist.get('para_lines:%d' % k, 0) + 1
+    res['with_br'], res['with_nesting'] = dist['with_br'], dist['with_nesting']
+    specs = driver.ask_many([('doc.spec', e) for _, e, _ in keep]) if keep else []
+    reqs, meta = [], []
+    for i, (doc, e, m) in enumerate(keep):
+        for _ in range(SPELLINGS):
             sp = ','.join(str(rng.randint(0, 20)) for _ in range(rng.randint(0, 40)))
-            src = dec_str(d.ask('doc.print', e, sp))
-            a = d.ask('convert', '4', 'xhtml', enc_str(src))
-            model = dec_str(a[3:]) if a.startswith('ok ') else a
+            reqs.append(('doc.print', e, sp)); meta.append(i)
+    srcs = [dec_str(x) for x in driver.ask_many(reqs)] if reqs else []
+    answers = driver.ask_many([('convert', '4', 'xhtml', enc_str(src)) for src in srcs]) if srcs else []
+    md = markdown.Markdown()
+    dis, seen = [], set()
+    for (_, e, sp), i, src, a in zip(reqs, meta, srcs, answers):
+        spec = dec_str(specs[i])
+        model = dec_str(a[3:]) if a.startswith('ok ') else a
+        try:
             real = md.reset().convert(src)
-            res['cases'] += 1
-            if not (model == spec == real):
-                res['differences'] += 1
-                dis.append(dict(src=src, spec=spec, model=model, real=real))
-    d.close()
-    return res, dis
+        except Exception as ex:  # noqa: BLE001   an exception of the converter is a disagreement
+            real = 'EXCEPTION %r' % (ex,)
+            md = markdown.Markdown()
+        seen.add(src)
+        if not (model == spec == real):
+            dis.append(dict(src=src, spec=spec, model=model, real=real, doc=keep[i][0], sp=sp, mode=keep[i][2]))
+    res['cases'] = len(reqs); res['differences'] = len(dis)
+    dis.sort(key=lambda x: (len(x['src']), x['src']))
+    dist['disagreements_total'] = len(dis)
+    out = {'cases': len(reqs), 'distinct': len(seen),
+           'disagreements': [{'op': 'convert(print d sp) = spec d = markdown(print d sp)', 'mode': x['mode'],
+                              'input': N.clip(x['src'], 1500), 'spelling': N.clip(x['sp'], 120), 'spec': N.clip(x['spec']),
+                              'model': N.clip(x['model']), 'impl': N.clip(x['real']), 'doc': N.clip(x['doc'], 800)}
+                             for x in dis[:MAX_DIS]],
+           'samples': [{'op': 'doc.print', 'input': N.clip(keep[meta[k]][0], 400), 'model': N.clip(srcs[k], 400)}
+                       for k in rng.sample(range(len(reqs)), min(3, len(reqs)))],
+           'dist': dict(sorted(dist.items()))}
+    if full:
+        out.update({'res': res, 'dis': dis})
+    return out
 
 
 if __name__ == '__main__' and sys.argv[1] == 'lean':
@@ -129,8 +167,12 @@ if __name__ == '__main__':
     mode = sys.argv[1] if len(sys.argv) > 1 else 'br'
     n = int(sys.argv[2]) if len(sys.argv) > 2 else 2000
     seed = int(sys.argv[3]) if len(sys.argv) > 3 else 1
-    res, dis = run(mode, n, seed)
-    print(json.dumps(res, indent=1))
+    mode = None if mode == 'all' else mode
+    d = proto.Driver()
+    out = run(d, random.Random(seed), n, mode, full=True)
+    d.close()
+    res, dis = out['res'], out['dis']
+    print(json.dumps(res, indent=1)); print(json.dumps({k: out[k] for k in ('cases', 'distinct', 'dist')}))
     for x in dis[:int(os.environ.get('SHOW', '6'))]:
         print('SRC  ', repr(x['src'])); print('SPEC ', repr(x['spec'])); print('MODEL', repr(x['model']))
         print('REAL ', repr(x['real'])); print()
